@@ -18,8 +18,8 @@ from simdbus.sched import Scheduler
 
 PROPERTY = 'C10'
 LEVEL = 'exploration'
-QUICK_RUNS = 6000
-QUICK_BUDGET_S = 90
+QUICK_RUNS = 30000
+QUICK_BUDGET_S = 60
 THOROUGH_BUDGET_S = 900
 RULE = ('generated exported classes (1-3 objects; interfaces with random member signatures, '
         'the same member on two interfaces, inheritance, dbus_<name> and decorator bindings, '
@@ -57,6 +57,11 @@ class OddError(Exception):
     pass
 
 
+class Unencodable:
+    def __repr__(self):
+        return '<unencodable>'       # no memory address: it ends up in an error message
+
+
 def scenario(ctx):
     ds, sim = ctx.ds, ctx.sim
     rig = ClientRig(ctx, unix=ds.flag(0.2))
@@ -92,7 +97,7 @@ def scenario(ctx):
                 return good_value()
             rec['outcome'] = 'unencodable'
             sim.probe('unencodable-return')
-            return object()
+            return Unencodable()
         if kind in (2, 3, 4):
             cls = {2: OddError, 3: NamedError, 4: BadNamedError}[kind]
             text = ds.pick(['kaboom', '', 'x: y'])
